@@ -23,7 +23,7 @@ EXPLANATION = (
     "C04.10 top spans its segment: init_top gets (new mapping - foot) for a fresh mapping and topsize +/- exactly the change when the segment holding top grows or shrinks in place. "
     "C04.4 also: the tree attempts depend on allocator state only through the tests that make them necessary and possible, and tmalloc_large searches the larger bins whenever nothing fitting was found; C04.6 also: a block obtained inside Dlmalloc::realloc is, on every path, the result or freed. "
     "C04.11 syscall_alloc reports exactly the length it mapped and sys_alloc sizes its request from the request alone. "
-    "NOT decided: the bound itself (a quantitative statement about fragmentation over arbitrary histories) and VmSize behaviour.")
+    "C04.3 also: sys_trim asks the kernel to shrink from the recorded size, still unreduced, to that size minus the release. NOT decided: the bound itself (a quantitative statement about fragmentation over arbitrary histories) and VmSize behaviour.")
 ASSUMPTIONS = ["dlmalloc's bin/tree invariants (not established here)"]
 
 D = "tiny_std::allocator::dlmalloc::"
